@@ -96,6 +96,9 @@ pub fn replay_main(args: &[String]) -> i32 {
         // values that round (ties to even) to the row's cs / od
         let cs = r.cs as f64 + if i % 2 == 0 { 0.3 } else { -0.4 };
         let od = r.od as f64 + if i % 3 == 0 { 0.4 } else { -0.3 };
+        // exact ties: x.5 rounds to the EVEN neighbour, so an even row value is also reached from both halves next to it
+        let cs = if r.cs % 2 == 0 && i % 5 == 0 { r.cs as f64 + if i % 10 == 0 { 0.5 } else { -0.5 } } else { cs };
+        let od = if r.od % 2 == 0 && i % 7 == 0 { r.od as f64 + if i % 14 == 0 { 0.5 } else { -0.5 } } else { od };
         let cs = cs.clamp(0.0, 10.0);
         let od = od.clamp(0.0, 10.0);
         let text = render(14, 0, cs, od, 1.4, 1.0, &[(0.0, 500.0, true, false)], &objs);
